@@ -13,6 +13,7 @@ def run(ck):
                         'payloads larger than one QUIC packet (C11 decides fragmentation)', 'tproxy UDP accept (recvmsg ancillary data)']
     udp.spec_reverse_udp_accept(ck)
     udp.spec_reverse_session_end(ck)
+    udp.spec_udp_frame_reader(ck)
     # datagrams carried inline over a stream hop (HTTP / QUIC): each frame comes out once, whole, whatever the segmentation
     ck.plans.append(codec.replay_plan)
     codec.spec_stream_frame_reader(ck, nreads=3 if ck.tier == 'quick' else 5)
